@@ -68,6 +68,26 @@ def observe(ctx, d, rng, st, sc, nt, k, big=False):
         m.close()
 
 
+def in_memory_curation(ctx, d, rng, st, sc, nt, k):
+    """The same curated assignment reached IN MEMORY: the dataset has no cluster file (the loader copies the
+    templates), the curation is written into model.spike_clusters - which the loader keeps as a copy "so that we can
+    update this array during manual clustering" - and get_merge_map() is asked again. Returns its outcome."""
+    ds = D.random_dense(rng, ns=len(st), nt=nt, nc=4, nsw=2)
+    ds['st'] = np.asarray(st)
+    ds['sc'] = None
+    dd = d / ('m%d' % (k % 50))
+    shutil.rmtree(dd, ignore_errors=True)
+    p = D.write_dataset(dd, ds, id_dtype=[np.int32, np.uint32, np.int64][k % 3])
+    m = D.load(p)
+    try:
+        m.spike_clusters[:] = np.asarray(sc)
+        mm, nan_idx = m.get_merge_map()
+        return ([[int(t) for t in mm[c]] for c in range(max(mm) + 1)] if len(mm) else [],
+                sorted(int(x) for x in nan_idx), as_list(m.spike_templates))
+    finally:
+        m.close()
+
+
 def random_history(rng, ns, nt, steps):
     st = rng.randint(0, nt, size=ns)
     sc = st.copy()
@@ -144,6 +164,18 @@ def run(ctx):
                               'st=%r sc=%r: merge_map %r nan_idx %r n_clusters %d; specification %r %r %d' % (
                                   case['st'], case['sc'], rec['mm'], rec['nan'], rec['ncl'], exp_mm,
                                   exp_nan, case['ncl']), dict(case=case, observed=rec))
+            if case['curated'] and j % 4 == 0:
+                got = None
+                with ctx.guard('mergemap', dict(case=case, in_memory=True)):
+                    got = in_memory_curation(ctx, d, rng, case['st'], case['sc'], 3, j)
+                if ctx.abort:
+                    return
+                if got is not None and ([sorted(x) for x in got[0]] != [sorted(x) for x in exp_mm] or got[1] != exp_nan
+                                        or got[2] != as_list(case['st'])):
+                    ctx.violation('mergemap', 'st=%r, curation %r written into model.spike_clusters in memory: '
+                                  'get_merge_map %r %r, spike_templates %r; specification %r %r' % (
+                                      case['st'], case['sc'], got[0], got[1], got[2], exp_mm, exp_nan),
+                                  dict(case=case, in_memory=True, observed=got))
             rec['id'] = len(recs) + 1
             recs.append(rec)
             if j % 900 == 0:
